@@ -572,6 +572,46 @@ fn main() {
             }
         }
     }
+    // a user-written evaluator that assigns objective values through `set_objective` (the documented way for custom
+    // evaluators), as a second stage over individuals a first evaluator already evaluated: every individual ends up with
+    // the value of the evaluator that ran last, and both steps are counted
+    {
+        use mahf::{components::evaluation::PopulationEvaluator, identifier, problems::evaluate::{Evaluate, Sequential}, state::common::Populations, Component};
+        struct Doubling;
+        impl Evaluate for Doubling {
+            type Problem = Real;
+            fn evaluate(&mut self, problem: &Real, _state: &mut mahf::State<Real>, individuals: &mut [mahf::Individual<Real>]) {
+                for i in individuals {
+                    let v = 2.0 * problem.f_pure(i.solution()) + 1.0;
+                    i.set_objective(v.try_into().unwrap());
+                }
+            }
+        }
+        for n in [1usize, 4, 9] {
+            let problem = Real::new(2, -1.0, 1.0, RealFn::Sphere);
+            let mut st = mahf::State::<Real>::new();
+            let mut pops = Populations::<Real>::new();
+            pops.push((0..n).map(|i| mahf::Individual::new_unevaluated(vec![i as f64 * 0.1, 0.3])).collect());
+            st.insert(pops);
+            st.insert_evaluator(Sequential::<Real>::new());
+            st.insert_evaluator_as::<identifier::A>(Doubling);
+            let first = PopulationEvaluator::new::<Real>();
+            let second = PopulationEvaluator::<identifier::A>::new_with::<Real>();
+            rep.case();
+            rep.nontrivial(hash_of(&("set_objective-evaluator", n)));
+            let r = mv::catch(|| {
+                first.init(&problem, &mut st).map_err(|e| e.to_string())?;
+                first.execute(&problem, &mut st).map_err(|e| e.to_string())?;
+                second.execute(&problem, &mut st).map_err(|e| e.to_string())
+            });
+            let ok = matches!(r, Ok(Ok(())))
+                && st.evaluations() as usize == 2 * n
+                && st.populations().current().iter().all(|i| i.get_objective().map(|o| o.value().to_bits()) == Some((2.0 * problem.f_pure(i.solution()) + 1.0).to_bits()));
+            if !ok {
+                rep.violation("custom-evaluator-through-set_objective:individuals-keep-an-older-value-or-count-wrong", json!({"population": n, "result": format!("{r:?}"), "evaluations": st.evaluations(), "objectives": st.populations().current().iter().map(|i| i.get_objective().map(|o| o.value())).collect::<Vec<_>>()}));
+            }
+        }
+    }
     if rep.counter("evaluation_steps_observed") == 0 {
         rep.inconclusive("hook never reached: no evaluation step observed");
     }
